@@ -2,7 +2,7 @@ SPECIFICATION Spec
 CONSTANTS
   Src = {s1}
   Tgt = {t1, t2}
-  MaxId = 3
+  MaxId = 2
   MaxBatch = 2
   MaxWm = 0
   ChanCap = 2
